@@ -10,7 +10,8 @@ THEOREMS = ["Econf.C12_history_callback", "Econf.C12_dirs_callback", "Econf.C12_
 SHRINK = False
 RULE = ("two-directory trees (and default three-layer trees) x suffix spellings x NULL/empty directory arguments x process-wide drop-in "
         "list: econf_readDirs, econf_readConfig with PARSING_DIRS of the same directories, both callback variants with an accepting "
-        "callback, and both history variants are run on the same tree; results must be identical and the history, merged left to right "
+        "callback, and both history variants are run on the same tree (the handle of the layered read sometimes made with the option given "
+        "twice, or used before for a read that finds nothing); results must be identical and the history, merged left to right "
         "with masking, must reproduce the result; non-trivial = at least two files consulted; distinct by scenario text")
 
 
@@ -55,10 +56,24 @@ def make(rng, sid):
         s.add("RAW", 3)
     else:
         pd = b"PARSING_DIRS=" + (u or b"") + b":" + (e or b"")
+        how = rng.random()
+        if how < 0.15 and name:
+            # the option given twice: the second list replaces the first (whose directories hold files of the same configuration)
+            s.file(b"/old/e/" + name + p["dsfx"], b"old_main=1\n")
+            s.file(b"/old/u/" + name + p["postfixes"][0] + b"/zz-old" + (p["dsfx"] or b".conf"), b"old_dropin=1\n")
+            pd = b"PARSING_DIRS=/old/u:/old/e;" + pd
+            s.meta["variant"] = "option_twice"
+        elif how < 0.3:
+            # the handle has already been used for a read that found nothing: its list of directories is still the caller's
+            s.meta["variant"] = "failed_read_first"
         s.add("NEW", 2, "opt", h(pd))
+        if s.meta.get("variant") == "failed_read_first":
+            s.add("RC", 2, h(b"ignored"), h(b"/ignored"), h(b"no-such-configuration"), h(sfx), h(b"="), h(b"#"))
         s.add("RC", 2, h(b"ignored"), h(b"/ignored"), h(name), h(sfx), h(b"="), h(b"#"))
         s.add("RAW", 2)
         s.add("NEW", 3, "opt", h(pd))
+        if s.meta.get("variant") == "failed_read_first":
+            s.add("RC", 3, h(b"ignored"), h(b"/ignored"), h(b"no-such-configuration"), h(sfx), h(b"="), h(b"#"), "cb:all")
         s.add("RC", 3, h(b"ignored"), h(b"/ignored"), h(name), h(sfx), h(b"="), h(b"#"), "cb:all")
         s.add("RAW", 3)
     s.add("RH", 4, *args)
@@ -79,6 +94,11 @@ def oracle(s, lines):
     if "p" not in s.meta:
         return None
     results = [l for l in lines if l.startswith(("rd ", "rc ", "rh "))]
+    if s.meta.get("variant") == "failed_read_first" and len(results) == 8:
+        for i in (4, 2):
+            if results[i].split()[1] != "E3":
+                return "a layered read of a configuration that does not exist returns %r" % results[i]
+            del results[i]
     if len(results) != 6:
         return "unexpected output"
     codes = [r.split()[1] for r in results]
@@ -146,7 +166,7 @@ def histogram(s, lines):
     if "p" not in s.meta:
         return ["corpus"]
     p = s.meta["p"]
-    ks = ["suffix_%r" % p["suffix"], "usr_%r" % (p["call"][1],), "etc_%r" % (p["call"][2],),
+    ks = ["suffix_%r" % p["suffix"], "usr_%r" % (p["call"][1],), "etc_%r" % (p["call"][2],), "variant_%s" % s.meta.get("variant", "plain"),
           "confdirs_global" if p["global_confdirs"] is not None else "confdirs_default"]
     r = [l for l in lines if l.startswith("rh ")]
     if r:
